@@ -34,6 +34,8 @@ int main(int argc, char** argv) {
         rc = drv::dispatch_main();
     else if (o.driver == "abort")
         rc = drv::abort_main();
+    else if (o.driver == "flavour")
+        rc = drv::flavour_main();
 #ifndef HX_ONLY_DISPATCH
     else if (o.driver == "slots")
         rc = drv::slots_main();
